@@ -502,6 +502,29 @@ def pairing_clause(model, rep, funcs):
             base = dotted(recv)
             rep.instance("O.kwargs", f.loc(c))
             vk = Matcher(f).expr(vk)  # a dictionary that was given a name first is the same dictionary
+            if isinstance(vk, ast.Call) and isinstance(vk.func, ast.Attribute) and not vk.args and not vk.keywords:
+                # `recv._helper()`: a private zero-argument method whose single return is the dictionary - read it there, with `self` standing for the receiver
+                try:
+                    kind_, tg_ = model.resolve_call(f, vk)
+                except Exception:
+                    kind_, tg_ = None, None
+                if not (kind_ == "repo" and tg_):
+                    # receiver of unknown type (a loop variable): the method name, when the package defines exactly one private method of that name
+                    cands_ = [g_ for g_ in model.all_functions if g_.name == vk.func.attr and g_.cls is not None and not g_.is_overload]
+                    kind_, tg_ = ("repo", cands_) if len(cands_) == 1 else (kind_, tg_)
+                if kind_ == "repo" and tg_ and len(tg_) == 1 and tg_[0].name.startswith("_"):
+                    h_ = tg_[0]
+                    rets_ = [r for r in walk_no_nested(h_.node) if isinstance(r, ast.Return) and r.value is not None]
+                    if len(rets_) == 1:
+                        body_ = Matcher(h_).expr(rets_[0].value)
+                        recv_src = vk.func.value
+                        selfname = h_.param_names()[0] if h_.param_names() else "self"
+
+                        class _Sub(ast.NodeTransformer):
+                            def visit_Name(self_, n_):
+                                return copy.deepcopy(recv_src) if n_.id == selfname else n_
+                        import copy
+                        vk = ast.fix_missing_locations(_Sub().visit(copy.deepcopy(body_)))
             if isinstance(vk, ast.Dict) and all(isinstance(k_, ast.Constant) and isinstance(k_.value, str) for k_ in vk.keys):
                 # `{"quaternion": col}` is `dict(quaternion=col)`
                 vk = ast.Call(func=ast.Name(id="dict", ctx=ast.Load()), args=[], keywords=[ast.keyword(arg=k_.value, value=v_) for k_, v_ in zip(vk.keys, vk.values)])
